@@ -301,7 +301,7 @@ def build_sysloss(rec, dk_dict=None, onehot=None):
         pd = jinns.parameters.ParamsDict(nn_params={k: u.init_params() for k, u in u_dict.items()},
                                          eq_params={k: jnp.array(float(v)) for k, v in zip(pkeys, rec["th"])})
 
-    def mk_eq(R):
+    def mk_eq(R, scalar=False):
         def resid(inputs, ud, p):
             th = [jnp.squeeze(p.eq_params[k]) for k in pkeys]
             us = []
@@ -313,7 +313,8 @@ def build_sysloss(rec, dk_dict=None, onehot=None):
                     us.append(ud[nm](inputs, pp)[0])
                 else:
                     us.append(ud[nm](inputs[:1], inputs[1:], pp)[0])
-            return jnp.stack([polyeval(R, [inputs[i] for i in range(nin)] + us + th)])   # residual of shape (1,)
+            val = polyeval(R, [inputs[i] for i in range(nin)] + us + th)
+            return val if scalar else jnp.stack([val])   # residual of shape (1,), or a 0-d scalar
         if lkind == "ode":
             class Eq(ODE):
                 def equation(self, t, ud, p):
@@ -328,7 +329,7 @@ def build_sysloss(rec, dk_dict=None, onehot=None):
                     return resid(jnp.concatenate([t, x]), ud, p)
         return Eq(Tmax=float(rec.get("Tmax", 1)))
 
-    dyn = {e["name"]: mk_eq(e["R"]) for e in rec["eqs"]}
+    dyn = {e["name"]: mk_eq(e["R"], bool(e.get("scalar"))) for e in rec["eqs"]}
     kw = {}
     scalar = rec["wform"] != "dict"
     rev = (lambda items: list(items)[::-1]) if rec.get("wrev") else (lambda items: list(items))
@@ -687,7 +688,9 @@ def run_gradbatch(task):
                     # built through the constructor: a pytree round trip (tree_at / jit) would re-sort the user's keys
                     l, _, _ = build_loss(rec, derivative_keys=DK(**{field[t]: mk_rev(m["mask"][k]) for k, t in enumerate(terms)}))
                 else:  # the string form of each term
-                    strs = {field[t]: m["strs"][k] for k, t in enumerate(terms) if m["strs"][k] is not None}     # None: the argument is omitted
+                    # None: the argument is omitted; "TREE": this term is given as a boolean tree next to the strings (documented mix)
+                    strs = {field[t]: (mk_mask([bool(v) for v in m["mask"][k]]) if m["strs"][k] == "TREE" else m["strs"][k])
+                            for k, t in enumerate(terms) if m["strs"][k] is not None}
                     l = with_keys(DK.from_str(params=params, **strs))
                 (tot, tvd), g = jax.value_and_grad(lambda p: l.evaluate(p, batch), has_aux=True)(params)
                 tv = [tvd[t] for t in terms]
